@@ -208,3 +208,96 @@ package node_manager
 //@   requires native != nil && governanceView != nil
 //@   modifies Store
 //@   ensures Store == upd(old(Store), nmKey0("governanceView"), Store[nmKey0("governanceView")]) && Store[nmKey0("governanceView")] != None
+
+// ---- C04: decoders reject malformed bytes without panicking (generated by /verif/tools/gen_decoder_contracts.py, reviewed) ----
+//@ func (*RegisterPeerParam).Deserialization
+//@   property C04
+//@   mode abstract
+//@   nopanic on
+//@   requires this != nil && source != nil && source.off <= uint64(len(source.s))
+//@   modifies *
+//@   ensures source.off <= uint64(len(source.s))
+
+//@ func (*PeerParam).Deserialization
+//@   property C04
+//@   mode abstract
+//@   nopanic on
+//@   requires this != nil && source != nil && source.off <= uint64(len(source.s))
+//@   modifies *
+//@   ensures source.off <= uint64(len(source.s))
+
+//@ func (*PeerListParam).Deserialization
+//@   property C04
+//@   mode abstract
+//@   nopanic on
+//@   requires this != nil && source != nil && source.off <= uint64(len(source.s))
+//@   modifies *
+//@   ensures source.off <= uint64(len(source.s))
+//@   loop 1 invariant this != nil && source != nil && source.off <= uint64(len(source.s))
+
+//@ func (*UpdateConfigParam).Deserialization
+//@   property C04
+//@   mode abstract
+//@   nopanic on
+//@   requires this != nil && source != nil && source.off <= uint64(len(source.s))
+//@   modifies *
+//@   ensures source.off <= uint64(len(source.s))
+
+//@ func (*Status).Deserialization
+//@   property C04
+//@   mode abstract
+//@   nopanic on
+//@   requires this != nil && source != nil && source.off <= uint64(len(source.s))
+//@   modifies *
+//@   ensures source.off <= uint64(len(source.s))
+
+//@ func (*BlackListItem).Deserialization
+//@   property C04
+//@   mode abstract
+//@   nopanic on
+//@   requires this != nil && source != nil && source.off <= uint64(len(source.s))
+//@   modifies *
+//@   ensures source.off <= uint64(len(source.s))
+
+//@ func (*PeerPoolMap).Deserialization
+//@   property C04
+//@   mode abstract
+//@   nopanic on
+//@   requires this != nil && source != nil && source.off <= uint64(len(source.s))
+//@   modifies *
+//@   ensures source.off <= uint64(len(source.s))
+//@   loop 1 invariant this != nil && source != nil && source.off <= uint64(len(source.s))
+
+//@ func (*PeerPoolItem).Deserialization
+//@   property C04
+//@   mode abstract
+//@   nopanic on
+//@   requires this != nil && source != nil && source.off <= uint64(len(source.s))
+//@   modifies *
+//@   ensures source.off <= uint64(len(source.s))
+
+//@ func (*GovernanceView).Deserialization
+//@   property C04
+//@   mode abstract
+//@   nopanic on
+//@   requires this != nil && source != nil && source.off <= uint64(len(source.s))
+//@   modifies *
+//@   ensures source.off <= uint64(len(source.s))
+
+//@ func (*ConsensusSigns).Deserialization
+//@   property C04
+//@   mode abstract
+//@   nopanic on
+//@   requires this != nil && source != nil && source.off <= uint64(len(source.s))
+//@   modifies *
+//@   ensures source.off <= uint64(len(source.s))
+//@   loop 1 invariant this != nil && source != nil && source.off <= uint64(len(source.s))
+
+//@ func (*Configuration).Deserialization
+//@   property C04
+//@   mode abstract
+//@   nopanic on
+//@   requires this != nil && source != nil && source.off <= uint64(len(source.s))
+//@   modifies *
+//@   ensures source.off <= uint64(len(source.s))
+
